@@ -8,7 +8,8 @@
   (`BridgeBus.genRunAll`, `genExtractIloc`, `genUpdate`), plus what the translation shows beyond the hand-written
   model: with a store whose reads fail per label (not all-or-nothing as a stale file does), an access that fails
   part-way leaves labels flagged loaded whose frames were dropped (`translated_partial_read_counterexample`,
-  replayed on the real code: finding F96).
+  `pinned_partial_read_counterexample`, finding F96 - repaired in /repo 1f9773b by a `try / finally`; the translation of
+  the repaired source keeps flags and cells in agreement for EVERY store: `translated_flags_agree`).
 -/
 import SFModel.BridgeBus
 import SFModel.Props.C17
@@ -69,52 +70,44 @@ def FlagsAgree (o : Obj φ) : Prop := o.loaded = o.series.map Option.isSome
 
 instance (o : Obj Nat) : Decidable (FlagsAgree o) := by unfold FlagsAgree; infer_instance
 
-/-- What the translation shows beyond the hand-written model (whose store is all-or-nothing within one access).
-    FULL statement that FAILS: "for every store, after `_update_series_cache_iloc` - returning or raising - a label is
-    flagged loaded iff its cell holds its Frame".  Counterexample: two deferred labels, no max_persist, a store that
-    cannot read label 1; the access `[0, 1]` raises after label 0 was read: `_loaded[0]` is True (mutated in place)
-    but `_series` was never re-bound - the frame is dropped and every later access of label 0 returns the
-    FrameDeferred placeholder.  Replayed on the real code (finding F96). -/
-theorem translated_partial_read_counterexample :
-    ¬ (∀ (env : Env Nat) (o : Obj Nat) (key : IKey), env.index.Nodup → o.loaded.length = env.index.length →
-        o.series.length = env.index.length → FlagsAgree o →
-        match Gen.Bus.update_series_cache_iloc env o key with
-        | .ok o' => FlagsAgree o'
-        | .error (_, o') => FlagsAgree o') := by
-  intro h
-  have := h { index := [0, 1], max_persist := none, store_defined := true, store_read := fun l => .ok l,
-              reader_next := fun l => if l = 1 then .error .other else .ok l }
-    { loaded := [false, false], loaded_all := false, last_accessed := [], series := [none, none] } (.array [0, 1])
-    (by decide) rfl rfl (by decide)
-  have hres : Gen.Bus.update_series_cache_iloc
-      ({ index := [0, 1], max_persist := none, store_defined := true, store_read := fun l => .ok l,
-         reader_next := fun l => if l = 1 then .error .other else .ok l } : Env Nat)
-      { loaded := [false, false], loaded_all := false, last_accessed := [], series := [none, none] } (.array [0, 1])
-      = .error (.other, { loaded := [true, false], loaded_all := false, last_accessed := [], series := [none, none] }) := by
-    decide
-  rw [hres] at this
-  exact absurd this (by decide)
+/-- HISTORICAL DEFINITION — the load path of `_update_series_cache_iloc` before /repo 1f9773b for an array key without
+    max_persist: the same load loop (the generated one), but NO `finally`: an exception leaves `_series` and
+    `_loaded_all` as they were.  Kept only for `pinned_partial_read_counterexample`. -/
+def updateNoFinallyPinned (env : Env φ) (o : Obj φ) (ps : List Nat) : Except (Err × Obj φ) (Obj φ) :=
+  match seriesTake env.index o.series ps with
+  | .error e => .error (e, o)
+  | .ok ts =>
+    match Gen.Bus.update_series_cache_iloc_loop2_mpNone env o o.series
+        (Reader.mk ((ts.filter fun lf => lf.2.isNone).map fun lf => lf.1) true) ts with
+    | .error (e, (o', _, _)) => .error (e, o')
+    | .ok (o', a', _) => .ok { o' with series := a', loaded_all := boolAll o'.loaded }
 
-/-- … the state the failed access leaves behind, and the same with max_persist = 2 (the dropped label also sits in
-    the recency list and counts towards the bound) -/
-example : Gen.Bus.update_series_cache_iloc
-    ({ index := [0, 1], max_persist := none, store_defined := true, store_read := fun l => .ok l,
-       reader_next := fun l => if l = 1 then .error .other else .ok l } : Env Nat)
-    { loaded := [false, false], loaded_all := false, last_accessed := [], series := [none, none] } (.array [0, 1])
-    = .error (.other, { loaded := [true, false], loaded_all := false, last_accessed := [], series := [none, none] }) := by
-  decide
+/-- HISTORICAL (behaviour before /repo 1f9773b, finding F96, repaired).  Without the `finally` a store that cannot read
+    label 1 made the access `[0, 1]` raise after label 0 was read: `_loaded[0]` was True (mutated in place) but `_series`
+    was never re-bound - the frame was dropped and every later access of label 0 returned the FrameDeferred placeholder.
+    The current code (second conjunct: the translation of the source as it is now) keeps the frame. -/
+theorem pinned_partial_read_counterexample :
+    let env : Env Nat := { index := [0, 1], max_persist := none, store_defined := true, store_read := fun l => .ok l,
+                           reader_next := fun l => if l = 1 then .error .other else .ok l }
+    let o : Obj Nat := { loaded := [false, false], loaded_all := false, last_accessed := [], series := [none, none] }
+    updateNoFinallyPinned env o [0, 1]
+      = .error (.other, { loaded := [true, false], loaded_all := false, last_accessed := [], series := [none, none] }) ∧
+    Gen.Bus.update_series_cache_iloc env o (.array [0, 1])
+      = .error (.other, { loaded := [true, false], loaded_all := false, last_accessed := [], series := [some 0, none] }) := by
+  exact ⟨by decide, by decide⟩
 
+/-- … and with max_persist = 2: what was read before the failing read is kept, flagged and in the recency list -/
 example : Gen.Bus.update_series_cache_iloc
     ({ index := [0, 1], max_persist := some 2, store_defined := true, store_read := fun l => .ok l,
        reader_next := fun l => if l = 1 then .error .other else .ok l } : Env Nat)
     { loaded := [false, false], loaded_all := false, last_accessed := [], series := [none, none] } (.array [0, 1])
-    = .error (.other, { loaded := [true, false], loaded_all := false, last_accessed := [0], series := [none, none] }) := by
+    = .error (.other, { loaded := [true, false], loaded_all := false, last_accessed := [0], series := [some 0, none] }) := by
   decide
 
-/-- PARTIAL form that holds, with the exact hypothesis: the store reads of one access all succeed or all fail (the
-    store of the model: a file that is stale or not, `envOf`).  Then the translated cache update keeps the whole
-    representation invariant whether it returns or raises, a raise leaves flags and cells untouched, and a return
-    realises the abstract LRU. -/
+/-- The whole representation invariant for the store of the model (`envOf`: the reads of one access all succeed or all
+    fail - a file that is stale or not): the translated cache update keeps it whether it returns or raises, a raise
+    leaves flags and cells untouched, and a return realises the abstract LRU.  (`_partial`: for a store that fails per
+    label, flags = cells is `translated_flags_agree`; bound and recency-list membership there are correspondence-only.) -/
 theorem translated_update_inv_partial (store : StoreFn φ) (pinnedReader : Bool) (st : StoreSt) (s : BusSt φ) (key : IKey)
     (hinv : Inv (fun _ _ => True : Nat → φ → Prop) s) (hps : ∀ p ∈ key.positions, p < s.labels.length) :
     match Gen.Bus.update_series_cache_iloc (envOf store pinnedReader st s.labels s.maxPersist) (objOf s) key with
